@@ -21,4 +21,4 @@ ASSUMPTIONS = [
     'canonical_depth >= base_depth (false when a followed symlink leads above the root): required by C01.depth.formula, not proved',
     'u32 machine arithmetic reasoned about bit-precisely; depth < u32::MAX assumed in the descend gate oracle',
 ]
-NOT_COVERED = ['exactly-once and no-other-row', 'bfs/dfs order', 'symlinks listed but not descended', 'root parsing, default root, regexp roots', 'calc_depth / canonical_path (std path handling)']
+NOT_COVERED = ['trees other than the scripted one (6 nodes, 3 levels)', 'symlinks listed but not descended, symlink cycles', 'default root, regexp roots', 'calc_depth / canonical_path (std path handling)', 'I/O errors, ignore files']
